@@ -10,7 +10,7 @@ as such (it has to be rebased by hand)."""
 import sys, os, json, subprocess, shutil, glob
 
 VERIF = os.path.dirname(os.path.dirname(os.path.abspath(__file__)))
-SCR = "/root/scratch/reeval"
+SCR = os.environ.get("REEVAL_SCR", "/root/scratch/reeval")      # (several instances may run side by side on disjoint seed lists)
 RELATED = {"C01": ["C08"], "C02": ["C03"], "C03": ["C02", "C06"], "C04": ["C05"], "C05": ["C09"], "C06": ["C10"], "C07": ["C06"],
            "C08": ["C01"], "C09": ["C05"], "C10": ["C06"], "C11": ["C12"], "C12": ["C11"], "C13": [], "C14": ["C15"], "C15": ["C14"],
            "C16": ["C14"], "C17": ["C16"], "C18": [], "C19": ["C02"]}
@@ -29,7 +29,7 @@ def main():
     for part in ("lean", "tools"):
         sh(f"rsync -a --exclude __pycache__ {VERIF}/{part}/ {snap}/{part}/")
     shutil.copy(VERIF + "/known_findings.json", snap + "/known_findings.json")
-    out_path = VERIF + "/seeded/reeval_results.json"
+    out_path = os.environ.get("REEVAL_OUT", VERIF + "/seeded/reeval_results.json")
     results = json.load(open(out_path)) if os.path.exists(out_path) and sys.argv[1:] else {}
     for name in names:
         patch = f"{VERIF}/seeded/{name}/patch.diff"
